@@ -5,7 +5,8 @@ from bounded.common import docs, main
 from bounded.semrun import run_product
 
 SEL = ["'a'", '"b"', "''", "0", "1", "-1", "-2", "*", ":", "1:", ":1", "::2", "::-1", "1:3", "-2:", "2:0:-1", "::0"]
-SHORT = [".a", ".b", ".*", "..a", "..*"]
+SHORT = [".a", ".b", ".*", "..a", "..*", ".e\u0301", "..e\u0301", ".\u00e9", "..\u00e9", ".\u1100\u1161", ".\uac00"]
+# names that differ only by Unicode normalisation form: RFC 9535 compares names without normalisation
 
 
 def queries(tier):
@@ -42,6 +43,7 @@ def classify(q, doc, what):
 def run(tier, seed):
     n = 4 if tier == "quick" else 5
     ds = docs(n, leaves=[None, 1, "a"], keys=["a", "b"])
+    ds += [{"e\u0301": 1, "\u00e9": 2}, {"\u00e9": 2, "x": {"e\u0301": 1}}, {"\u1100\u1161": 1, "\uac00": 2}, [{"\uac00": [1]}, {"e\u0301": {"\u00e9": 3}}]]
     return run_product(queries(tier), ds, classify,
                        rule=f"all filter-free queries from selector lists <= {2 if tier == 'quick' else 3} over 17 representative selectors, child and "
                             f"descendant, segment sequences <= {2 if tier == 'quick' else 3}, x all JSON documents with <= {n} nodes over leaves "
